@@ -607,6 +607,32 @@ func (s *effSummary) setWitnessHash(v uint64) { invHashes[s] = v }
 // applyFuncValue: the function value fv is called with arguments rooted at ar (in the current function's terms).
 func (e *effects) applyFuncValue(cx *fnCtx, s *effSummary, in ssa.Instruction, fv ssa.Value, ar []rootSet, invokes *[]invokeEff,
 	addWrite func(rootSet, ssa.Instruction, string), addGlobal func(string, ssa.Instruction, string)) {
+	// a function parameter captured by a closure is spilled to a cell: look through it
+	for d := 0; d < 4; d++ {
+		if ld, ok := fv.(*ssa.UnOp); ok && ld.Op == token.MUL {
+			switch a := ld.X.(type) {
+			case *ssa.Alloc:
+				if r := e.pr.canonicalRoot(a); r != ssa.Value(a) {
+					fv = r
+					continue
+				}
+				// a local function variable assigned exactly one closure / function
+				if sts := storesTo(a); len(sts) == 1 {
+					fv = unwrap(sts[0].Val)
+					continue
+				}
+			case *ssa.FreeVar:
+				fv = a
+			}
+		}
+		if al, ok := fv.(*ssa.Alloc); ok {
+			if r := e.pr.canonicalRoot(al); r != ssa.Value(al) {
+				fv = r
+				continue
+			}
+		}
+		break
+	}
 	switch x := fv.(type) {
 	case *ssa.MakeClosure:
 		fn := x.Fn.(*ssa.Function)
